@@ -352,6 +352,7 @@ func main() {
 	detail := flag.Int("detail", 2, "blocks whose removal runs are logged read by read")
 	maxRm := flag.Int("maxrm", 0, "cap on removals per block (0 = every item)")
 	schemes := flag.String("schemes", "hash", "state schemes of the importing chain")
+	useScripts := flag.Bool("scripts", true, "prepend the scripted blocks of blockkit")
 	flag.Parse()
 	log.SetDefault(log.NewLogger(log.DiscardHandler()))
 	seed := int64(tl.EnvInt("VERIF_SEED", 1))
@@ -371,9 +372,21 @@ func main() {
 			if err != nil {
 				tl.Fatal("%v", err)
 			}
-			for b := 0; b < *nblocks; b++ {
-				n := 1 + r.Intn(*ntx)
-				blk, _, kinds, err := ch.ExtendRandom(r, n, blockkit.BlockOpts{Withdrawals: true})
+			scripts := k.Scripts()
+			if !*useScripts {
+				scripts = nil
+			}
+			for b := 0; b < len(scripts)+*nblocks; b++ {
+				var (
+					blk   *types.Block
+					kinds []string
+					err   error
+				)
+				if b < len(scripts) {
+					blk, _, kinds, err = ch.ExtendScript(scripts[b])
+				} else {
+					blk, _, kinds, err = ch.ExtendRandom(r, 1+r.Intn(*ntx), blockkit.BlockOpts{Withdrawals: true})
+				}
 				if err != nil {
 					tl.Fatal("generator: %v", err)
 				}
